@@ -360,6 +360,9 @@ pub fn gen_case(rg: &mut Rg, rule: &str) -> Case {
                 "#[strum(to_string = \"{\")]", "#[strum(to_string = \"}\")]", "#[strum(to_string = \"{0\")]", "#[strum(to_string = \"{ 0 }\")]", "#[strum(to_string = \"{0}{1}{2}\")]",
                 "#[strum(to_string = \"{é}\")]", "#[strum(to_string = \"{:}\")]", "#[strum(to_string = \"{0:{1}}\")]", "#[strum(props(r#type = \"x\"))]",
                 "#[strum(default_with = \"r#fn\")]", "#[strum(transparent, default)]", "#[strum(default, disabled)]", "#[strum(props())]",
+                // malformed pass-through attributes on a VARIANT (EnumDiscriminants copies them)
+                "#[strum_discriminants]", "#[strum_discriminants()]", "#[strum_discriminants = \"x\"]", "#[strum_discriminants(strum(serialize = \"a\"), strum(serialize = \"b\"))]",
+                "#[strum_discriminants(cfg(any()))]", "#[strum_discriminants(doc = \"d\")]",
             ];
             let a = *rg.pick(&attrs);
             let kind = *rg.pick(&["", "(u8)", " { x: u8 }", "(String)", "(u8, u8)"]);
